@@ -79,12 +79,27 @@ def parse_modifies(run, texts, env, fi=None, dyn_cls=None):
             continue
         m = re.match(r'^(.*)\.([A-Za-z_][A-Za-z_0-9]*)$', t)
         if m:
+            m2 = re.match(r'^(.*)\.rng\.rng$', m.group(1))
+            if m2 and m.group(2) == 'state':
+                base = eval_expr_in(run, m2.group(1), env, fi=fi, dyn_cls=dyn_cls)
+                if isinstance(base, EntryRef):
+                    out.append(('entrycol', base.loc, base.key, 'rng'))
+                    continue
+            m3 = re.match(r'^(.*)\.scaler$', m.group(1))
+            if m3 and m.group(2) == 'state':
+                base = eval_expr_in(run, m3.group(1), env, fi=fi, dyn_cls=dyn_cls)
+                if isinstance(base, EntryRef):
+                    out.append(('entrycol', base.loc, base.key, 'scaler'))
+                    continue
             v = eval_expr_in(run, m.group(1), env, fi=fi, dyn_cls=dyn_cls)
             if isinstance(v, Ref):
                 out.append(('field', v.loc, m.group(2)))
                 continue
             if isinstance(v, NoneV):
                 continue        # a field of an absent (None) sub-object: nothing to modify
+            if isinstance(v, EntryRef):
+                out.append(('entrycol', v.loc, v.key, m.group(2)))
+                continue
         raise Unsupported('modifies clause %r' % t)
     return out
 
@@ -138,6 +153,23 @@ def havoc(run, descs, dyn_cls_of=None):
             for c, arr in m.cols.items():
                 nm = nm.with_col(c, z3.Store(arr, d[2], fresh('hv_' + (c or 'v'), arr.sort().range())))
             st.heap[d[1]] = nm
+        elif d[0] == 'entrycol':
+            m = st.heap[d[1]]
+            if d[3] == 'rng':
+                # the entry's generator advances: shared generator or private state, whichever the entry uses
+                sh = m.cols['#rng_shared'][d[2]]
+                if getattr(m, 'shared_rng', None) is not None:
+                    gen = st.heap[m.shared_rng].fields['rng']
+                    g = st.heap[gen.loc]
+                    oldt = g.fields['state'].term
+                    st.heap[gen.loc] = g.set('state', OpaqueV(z3.If(sh, fresh('hv_rng', oldt.sort()), oldt), 'rngstate'))
+                    st.written.add((gen.loc, 'state'))
+                arr = m.cols['#rng_state']
+                nm = m.with_col('#rng_state', z3.Store(arr, d[2], z3.If(sh, arr[d[2]], fresh('hv_rng', arr.sort().range()))))
+                st.heap[d[1]] = nm
+            else:
+                arr = m.cols[d[3]]
+                st.heap[d[1]] = m.with_col(d[3], z3.Store(arr, d[2], fresh('hv_' + d[3], arr.sort().range())))
         elif d[0] == 'field':
             o = st.heap[d[1]]
             cls = o.cls
@@ -212,8 +244,13 @@ def apply_contract(run, fi, sp, env, dyn_cls, silent=False):
         run.st.assume(g)
     if sp.raises and not silent:
         # the callee may reject the call; its own obligations show that it then leaves everything unchanged
-        if run.path.choice(2) == 1:
-            raise PyRaise(sp.raises[0] if isinstance(sp.raises, (list, tuple)) else 'Exception', 'in ' + fi.qual)
+        et = sp.raises[0] if isinstance(sp.raises, (list, tuple)) else 'Exception'
+        if sp.raises_iff:
+            cond = eval_clause(run, specmod.Clause(sp.raises_iff), env, fi=fi, dyn_cls=dyn_cls)
+            if run.branch(cond):
+                raise PyRaise(et, 'in ' + fi.qual)
+        elif run.path.choice(2) == 1:
+            raise PyRaise(et, 'in ' + fi.qual)
     descs = parse_modifies(run, sp.modifies, env, fi=fi, dyn_cls=dyn_cls)
     havoc(run, descs)
     for d in descs:
@@ -242,7 +279,7 @@ def _mark_written(run, d):
             st.written.add((loc, '*'))
     elif d[0] in ('vals', 'map'):
         st.written.add((d[1], '*' if d[0] == 'map' else 'vals'))
-    elif d[0] == 'entry':
+    elif d[0] in ('entry', 'entrycol'):
         st.written.add((d[1], 'vals'))
     elif d[0] == 'field':
         st.written.add((d[1], d[2]))
@@ -286,7 +323,7 @@ def frame_obligations(run, entry, descs, roots, props):
     maps_ok = {d[1] for d in descs if d[0] == 'map'}
     entries = {}
     for d in descs:
-        if d[0] == 'entry':
+        if d[0] in ('entry', 'entrycol'):
             entries.setdefault(d[1], []).append(d[2])
     for loc, o0 in entry.heap.items():
         if loc in deep:
